@@ -746,6 +746,25 @@ theorem C12_fn_make_fee_velocity_control (fspec : Policy → FnNodeVelocity.Velo
   unfold Node.make_fee_velocity_control
   cases h : FnNodeVelocity.VelocityControl.new (fspec pol) <;> simp_all [Except.map, bind, Except.bind, pure, Except.pure]
 
+/-- `Node::network`, `Node::validator_factory` (the lock is the identity), `Node::get_id`: projections; **`Node::policy`** is
+    `validator_factory().policy(network())` — the expression that the normalisation `b4_uvc_policy` of
+    `update_velocity_controls` replaces by `self.policy()`, and, on a node that came out of `new_full`, the very policy
+    `new_full` took the two specs from (same factory, same network). -/
+theorem C12_fn_node_policy (polOf : ValidatorFactory → Network → Policy)
+    (n : Node PaymentHash ScriptBuf Xpub PublicKey Secp256k1 Network MyKeysManager ChannelId ChannelSlot ValidatorFactory
+      Persist Clock ChainTracker) :
+    Node.network n = n.node_config.network ∧ Node.validator_factory_fn n = n.validator_factory ∧ Node.get_id n = n.node_id ∧
+    Node.policy polOf n = polOf n.validator_factory n.node_config.network := ⟨rfl, rfl, rfl, rfl⟩
+
+theorem C12_fn_node_policy_after_new_full (secp : Secp256k1) (prefixOf : PublicKey → String) (polOf : ValidatorFactory → Network → Policy)
+    (gspec fspec : Policy → FnNodeVelocity.VelocityControlSpec) (emptyStr : String)
+    (cfg : NodeConfig Network) (sv : NodeServices Persist Clock ValidatorFactory)
+    (st : NodeState PaymentHash ScriptBuf Xpub PublicKey) (km : MyKeysManager) (nid : PublicKey) (tr : ChainTracker) :
+    Node.policy polOf (Node.new_full (ChannelId := ChannelId) (ChannelSlot := ChannelSlot) secp prefixOf polOf gspec fspec emptyStr cfg sv st km nid tr)
+      = polOf sv.validator_factory cfg.network ∧
+    Node.get_id (Node.new_full (ChannelId := ChannelId) (ChannelSlot := ChannelSlot) secp prefixOf polOf gspec fspec emptyStr cfg sv st km nid tr) = nid :=
+  ⟨rfl, rfl⟩
+
 /-- non-vacuity: a node restored with 900 msat counted under an hourly limit of 1000, restarted under the same policy, keeps
     the 900 (payment control) while its fee control — persisted hourly, policy now daily — starts afresh; positions not swapped -/
 example : ((Node.new_full (PaymentHash := Nat) (ScriptBuf := Nat) (Xpub := Nat) (PublicKey := Nat) (Secp256k1 := Unit)
